@@ -140,4 +140,26 @@ Section MK.
     { rewrite Forall_forall in Hr1top. apply Hr1top. apply nth_In. lia. }
     eapply mask_ok; eassumption.
   Qed.
+
+  (* ---------------------------------------------------------------- the trusted-party proof (nisp2): the hidden positions in ANY order *)
+  Theorem nisp2_hidden_responses_masked msgs c1 c2 pk bases ck U ds p ds' :
+    Forall bits_top ds ->
+    nisp2_gen CS msgs c1 c2 pk bases ck U ds = Ok (p, ds') ->
+    321 <= lm CS + MASK -> 0 < n2_chal p < 2 ^ 256 ->
+    length (n2_d p) = length U /\
+    forall k, (k < length U)%nat ->
+      2 ^ 64 <= nth k (n2_d p) 0 / n2_chal p - nth (N.to_nat (nth k U 0%N)) msgs 1.
+  Proof.
+    intros Hd H Hk Hc. unfold nisp2_gen in H.
+    destruct (Nat.ltb (length bases) (length msgs) && Nat.ltb (length msgs) (length (ck_g ck)))%bool; [discriminate|].
+    mstep H omega d1 Ho. mstep H mu1 d2 Hm1. mstep H mu2 d3 Hm2. mstep H w1 d4 Hw1. mstep H w2 d5 Hw2.
+    mstep H h1 d6 Hh1. mstep H h2 d7 Hh2. mstep H d d8 Hdd. apply mret_ok in H as [-> _].
+    apply lift_ok in Hdd as [Hdd _]. cbn [n2_d n2_chal] in *.
+    destruct (mmapM_bits_top _ _ _ _ _ Hd Ho) as [Hotop [Hol _]].
+    destruct (resp_idx_spec msgs _ U omega d Hol Hdd) as [Hld Hnd].
+    split; [exact Hld|]. intros k Hk'. rewrite (Hnd k Hk').
+    assert (Hrk : 2 ^ (lm CS + MASK - 1) <= nth k omega 0).
+    { rewrite Forall_forall in Hotop. apply Hotop. apply nth_In. lia. }
+    eapply mask_ok; eassumption.
+  Qed.
 End MK.
